@@ -1277,13 +1277,13 @@ Proof.
   - do 3 eexists; split; [reflexivity|]. fin_add.
 Qed.
 
-Lemma timeline_loop_ok b : sdb_inv b -> forall n seqNr cur done,
-  exists r, timeline_loop b seqNr n cur done = Ok r.
+Lemma timeline_loop_ok b : sdb_inv b -> forall n seqNr cur nextT done,
+  exists r, timeline_loop b seqNr n cur nextT done = Ok r.
 Proof.
-  intros I. induction n as [|n IH]; intros seqNr cur done; [cbn; eauto|].
+  intros I. induction n as [|n IH]; intros seqNr cur nextT done; [cbn; eauto|].
   cbn [timeline_loop]. destruct (sdb_getItem_ok b seqNr I) as (oi & Ho & _). rewrite Ho. cbn [bind].
   destruct oi as [sd|]; [|eauto]. destruct cur as [[[t d] r]|]; [|apply IH].
-  destruct (i_dur sd =? d); apply IH.
+  destruct ((i_dur sd =? d) && (i_dts sd =? nextT)); apply IH.
 Qed.
 
 Lemma timelines_ok g first last : gen_inv g -> forall asets, exists r, timelines g first last asets = Ok r.
@@ -1293,7 +1293,7 @@ Proof.
   cbn [timelines]. destruct reps as [|rep reps]; [eauto|].
   destruct (lookup rep (g_bufs g)) as [b|] eqn:E; [|eauto].
   destruct (lookup_Forall _ _ _ _ Fb E) as (k & Ib & _). cbn [snd] in Ib.
-  destruct (timeline_loop_ok b Ib (Z.to_nat (last - first + 1)) first None []) as (tl & Ht). rewrite Ht. cbn [bind].
+  destruct (timeline_loop_ok b Ib (Z.to_nat (last - first + 1)) first None 0 []) as (tl & Ht). rewrite Ht. cbn [bind].
   destruct tl as [tl|]; [|eauto]. destruct IH as (r & Hr). rewrite Hr. cbn [bind]. destruct r; eauto.
 Qed.
 
@@ -1630,22 +1630,57 @@ Proof.
   split; [vm_compute; reflexivity|]. split; [vm_compute; reflexivity|]. split; [vm_compute; discriminate|vm_compute; reflexivity].
 Qed.
 
-(** the timeline carries the start time of the first listed segment only: a stored segment that does not start
-    where the previous number ends (number 3 is 60 ticks long instead of 100, number 4 starts on the grid at 400)
-    is listed with the running sum (360), not with its own time. Every precondition holds. *)
-Lemma time_discontinuity_refuted :
+(** Before 4e0d5ea the timeline carried the start time of the first listed segment only. The loop of
+    modifySegmentTemplate as it was in the parent commit: *)
+Fixpoint timeline_loop_before_fix (b : sdb) (seqNr : Z) (n : nat) (cur : option selem) (done : list selem)
+  : res (option (list selem)) :=
+  match n with
+  | O => Ok (Some (done ++ match cur with Some s => [s] | None => [] end))
+  | S k =>
+    do oi <- sdb_getItem b seqNr;
+    match oi with
+    | None => Ok None
+    | Some sd =>
+      match cur with
+      | None => timeline_loop_before_fix b (seqNr + 1) k (Some (i_dts sd, i_dur sd, 0)) done
+      | Some (t, d, r) =>
+        if i_dur sd =? d then timeline_loop_before_fix b (seqNr + 1) k (Some (t, d, r + 1)) done
+        else timeline_loop_before_fix b (seqNr + 1) k (Some (-1, i_dur sd, 0)) (done ++ [(t, d, r)])
+      end
+    end
+  end.
+
+Definition discontinuity_items : list item :=
+  [mkItem 1 100 100 false; mkItem 2 200 100 false; mkItem 3 300 60 false; mkItem 4 400 100 false].
+
+(** a stored segment that does not start where the previous number ends (number 3 is 60 ticks long instead of
+    100, number 4 starts on the grid at 400) was listed with the running sum (360), not with its own time *)
+Lemma time_discontinuity_refuted_before_fix :
+  exists b tl it,
+    sdb_adds (sdb_new 8) discontinuity_items = Ok b /\
+    timeline_loop_before_fix b 1 4 None [] = Ok (Some tl) /\
+    sdb_getItem b 4 = Ok (Some it) /\ i_dts it = 400 /\
+    nth 3 (expand tl 0) (0, 0) = (360, 100).
+Proof.
+  do 3 eexists. split; [vm_compute; reflexivity|]. split; [vm_compute; reflexivity|].
+  split; [vm_compute; reflexivity|]. split; vm_compute; reflexivity.
+Qed.
+
+(** the same segments through the channel as it is now: number 4 is listed with its own time, the S element
+    carries an explicit @t. Every precondition holds. *)
+Lemma time_discontinuity_repaired :
   exists c ups pubs c' pub b it,
     chan_inv c /\ run_pre c ups /\ chan_trace c ups = Ok (pubs, c') /\
     last pubs None = Some pub /\ p_first pub = 1 /\ p_last pub = 4 /\
+    p_tl pub = [[(100, 100, 1); (-1, 60, 0); (400, 100, 0)]] /\
     lookup 0 (g_bufs (ch_gen c')) = Some b /\ sdb_getItem b 4 = Ok (Some it) /\ i_dts it = 400 /\
-    nth 3 (expand (hd [] (p_tl pub)) 0) (0, 0) = (360, 100).
+    nth 3 (expand (hd [] (p_tl pub)) 0) (0, 0) = (400, 100).
 Proof.
-  exists (chan_with [[0]] 30 [mkTrack 0 true true 1000]),
-         [mkUp 0 (mkItem 1 100 100 false); mkUp 0 (mkItem 2 200 100 false); mkUp 0 (mkItem 3 300 60 false);
-          mkUp 0 (mkItem 4 400 100 false)].
+  exists (chan_with [[0]] 30 [mkTrack 0 true true 1000]), (map (mkUp 0) discontinuity_items).
   do 5 eexists. split; [apply chan_with_inv|]. split; [apply run_preb_ok; vm_compute; reflexivity|].
   split; [vm_compute; reflexivity|]. split; [vm_compute; reflexivity|].
   split; [vm_compute; reflexivity|]. split; [vm_compute; reflexivity|].
+  split; [vm_compute; reflexivity|].
   split; [vm_compute; reflexivity|]. split; [vm_compute; reflexivity|].
   split; vm_compute; reflexivity.
 Qed.
@@ -1784,21 +1819,66 @@ Proof.
     inversion H; subst. split; [lia|reflexivity].
 Qed.
 
-Lemma timeline_loop_sound b : sdb_inv b -> forall n seqNr cur done acc tl,
-  items_at b (seqNr - lenZ acc) acc ->
-  (acc = [] -> cur = None /\ done = []) ->
-  (acc <> [] -> exists t d r, cur = Some (t, d, r) /\ 0 <= r) ->
-  Forall (fun s => 0 <= snd s) (tl_out cur done) ->
-  durs_of (tl_out cur done) = map i_dur acc ->
-  (forall it rest, acc = it :: rest -> tl_shape (i_dts it) (tl_out cur done)) ->
-  timeline_loop b seqNr n cur done = Ok (Some tl) ->
-  exists items, lenZ items = lenZ acc + Z.of_nat n /\ items_at b (seqNr - lenZ acc) items /\
-                durs_of tl = map i_dur items /\
-                (forall it rest, items = it :: rest -> tl_shape (i_dts it) tl) /\
-                Forall (fun s => 0 <= snd s) tl.
+(** what the listed S elements say: (start, duration) per segment *)
+Definition td (it : item) : Z * Z := (i_dts it, i_dur it).
+
+(** times as the receiver's types have them: uint64 start, uint32 duration, the end fits uint64 *)
+Definition item_timed (it : item) : Prop := 0 <= i_dts it /\ 0 <= i_dur it /\ i_dts it + i_dur it < two64.
+
+(** the time at which the expansion of [tl] ends *)
+Fixpoint tl_end (tl : list selem) (tc : Z) : Z :=
+  match tl with
+  | [] => tc
+  | (t, d, r) :: rest => tl_end rest ((if t =? -1 then tc else t) + d * (r + 1))
+  end.
+
+Lemma expand_app a : forall b tc, expand (a ++ b) tc = expand a tc ++ expand b (tl_end a tc).
 Proof.
-  intros I. induction n as [|n IH]; intros seqNr cur done acc tl Hat Hnil Hcur Hr0 Hd Hs Hrun.
-  - cbn in Hrun. inversion Hrun; subst. exists acc. split; [lia|]. split; [exact Hat|]. split; [exact Hd|split; [exact Hs|exact Hr0]].
+  induction a as [|[[t d] r] a IH]; intros b tc; [reflexivity|].
+  cbn [app expand tl_end]. rewrite IH, app_assoc. reflexivity.
+Qed.
+
+Lemma tl_end_app a : forall b tc, tl_end (a ++ b) tc = tl_end b (tl_end a tc).
+Proof. induction a as [|[[t d] r] a IH]; intros b tc; [reflexivity|]. cbn [app tl_end]. apply IH. Qed.
+
+Lemma expand_one t d r tc : expand [(t, d, r)] tc = expand_s (if t =? -1 then tc else t) d (Z.to_nat (r + 1)).
+Proof. cbn [expand]. apply app_nil_r. Qed.
+
+Lemma expand_s_snoc d n : forall t, expand_s t d (S n) = expand_s t d n ++ [(t + d * Z.of_nat n, d)].
+Proof.
+  induction n as [|n IH]; intros t.
+  - cbn [expand_s app Z.of_nat]. rewrite Z.mul_0_r, Z.add_0_r. reflexivity.
+  - change (expand_s t d (S (S n))) with ((t, d) :: expand_s (t + d) d (S n)). rewrite IH.
+    replace (t + d * Z.of_nat (S n)) with (t + d + d * Z.of_nat n) by lia. reflexivity.
+Qed.
+
+Lemma u64_small z : 0 <= z < two64 -> u64 z = z.
+Proof. intros H. unfold u64. apply Z.mod_small. exact H. Qed.
+
+Lemma Forall_snoc_inv {A} (P : A -> Prop) l x : Forall P (l ++ [x]) -> Forall P l /\ P x.
+Proof. intros H. apply Forall_app in H as [H1 H2]. inversion H2; subst. split; assumption. Qed.
+
+(** the loop invariant: the S elements so far expand to the (time, duration) of the items so far and end at nextT *)
+Definition tl_state (cur : option selem) (nextT : Z) (done : list selem) (acc : list item) : Prop :=
+  match cur with
+  | None => acc = [] /\ done = []
+  | Some s => acc <> [] /\ 0 <= snd s /\
+      (Forall item_timed acc ->
+         expand (done ++ [s]) 0 = map td acc /\ tl_end (done ++ [s]) 0 = nextT /\ 0 <= nextT < two64)
+  end.
+
+Lemma timeline_loop_sound b : sdb_inv b -> forall n seqNr cur nextT done acc tl,
+  items_at b (seqNr - lenZ acc) acc ->
+  tl_state cur nextT done acc ->
+  timeline_loop b seqNr n cur nextT done = Ok (Some tl) ->
+  exists items, lenZ items = lenZ acc + Z.of_nat n /\ items_at b (seqNr - lenZ acc) items /\
+                (Forall item_timed items -> expand tl 0 = map td items).
+Proof.
+  intros I. induction n as [|n IH]; intros seqNr cur nextT done acc tl Hat St Hrun.
+  - cbn in Hrun. inversion Hrun; subst. exists acc. split; [lia|]. split; [exact Hat|].
+    intros F. destruct cur as [s|]; cbn [tl_state] in St.
+    + destruct St as (_ & _ & St). destruct (St F) as (E & _). exact E.
+    + destruct St as [-> ->]. reflexivity.
   - cbn [timeline_loop] in Hrun. destruct (sdb_getItem_ok b seqNr I) as (oi & Ho & Hoi). rewrite Ho in Hrun. cbn [bind] in Hrun.
     destruct oi as [sd|]; [|discriminate]. destruct Hoi as [Hin Hseq].
     pose proof (lenZ_nonneg acc).
@@ -1806,56 +1886,48 @@ Proof.
     { rewrite lenZ_app, lenZ_cons, lenZ_nil. replace (seqNr + 1 - (lenZ acc + (1 + 0))) with (seqNr - lenZ acc) by lia.
       intros k it Hk. apply nthZ_snoc_inv in Hk as [[Hk _]|[-> ->]]; [apply Hat; exact Hk|]. split; [exact Hin|lia]. }
     assert (Hne : acc ++ [sd] <> []) by (destruct acc; discriminate).
-    destruct cur as [[[t d] r]|].
-    + destruct (Hcur ltac:(intros ->; destruct (Hnil eq_refl); discriminate)) as (t' & d' & r' & Ec & Hr). inversion Ec; subst t' d' r'.
-      destruct (i_dur sd =? d) eqn:Ed.
-      * (* same duration: r++ *)
-        destruct (IH (seqNr + 1) (Some (t, d, r + 1)) done (acc ++ [sd]) tl Hat'
-                    ltac:(intros E; destruct acc; discriminate)
-                    ltac:(intros _; exists t, d, (r + 1); split; [reflexivity|lia])) as (items & Hl & Hi & Hdur & Hsh & Hr0'); [| | |exact Hrun|].
-        -- unfold tl_out in *. apply Forall_app in Hr0 as [F1 F2]. apply Forall_app. split; [exact F1|].
-           constructor; [cbn; lia|constructor].
-        -- unfold tl_out in *. rewrite durs_of_app in *. cbn [durs_of flat_map fst snd] in *. rewrite app_nil_r in *.
-           rewrite map_app. cbn [map]. replace (Z.to_nat (r + 1 + 1)) with (S (Z.to_nat (r + 1))) by lia.
-           rewrite repeat_snoc, app_assoc, Hd. f_equal. f_equal. lia.
-        -- intros it rest E. destruct acc as [|a acc']; [destruct (Hnil eq_refl); discriminate|].
-           cbn [app] in E. inversion E; subst it rest. specialize (Hs a acc' eq_refl).
-           unfold tl_out, tl_shape in *. destruct done as [|s0 done']; cbn [app] in *; [exact Hs|].
-           destruct Hs as [Hs1 Hs2]. split; [exact Hs1|]. apply Forall_app in Hs2 as [F1 F2]. apply Forall_app. split; [exact F1|].
-           inversion F2; subst. constructor; [exact H2|constructor].
-        -- exists items. rewrite lenZ_app, lenZ_cons, lenZ_nil in Hl.
-           rewrite lenZ_app, lenZ_cons, lenZ_nil in Hi. replace (seqNr + 1 - (lenZ acc + (1 + 0))) with (seqNr - lenZ acc) in Hi by lia.
-           split; [lia|]. split; [exact Hi|]. split; [exact Hdur|split; [exact Hsh|exact Hr0']].
-      * (* new S element without @t *)
-        destruct (IH (seqNr + 1) (Some (-1, i_dur sd, 0)) (done ++ [(t, d, r)]) (acc ++ [sd]) tl Hat'
-                    ltac:(intros E; destruct acc; discriminate)
-                    ltac:(intros _; exists (-1), (i_dur sd), 0; split; [reflexivity|lia])) as (items & Hl & Hi & Hdur & Hsh & Hr0'); [| | |exact Hrun|].
-        -- unfold tl_out in *. apply Forall_app. split; [exact Hr0|]. constructor; [cbn; lia|constructor].
-        -- unfold tl_out in *. rewrite durs_of_app in *. cbn [durs_of flat_map fst snd] in *. rewrite app_nil_r in *.
-           rewrite map_app. cbn [map]. rewrite <- Hd.
-           rewrite durs_of_app. cbn [durs_of flat_map fst snd]. rewrite app_nil_r. reflexivity.
-        -- intros it rest E. destruct acc as [|a acc']; [destruct (Hnil eq_refl); discriminate|].
-           cbn [app] in E. inversion E; subst it rest. specialize (Hs a acc' eq_refl).
-           unfold tl_out, tl_shape in *. destruct done as [|s0 done']; cbn [app] in *.
-           ++ destruct Hs as [Hs1 _]. split; [exact Hs1|]. constructor; [reflexivity|constructor].
-           ++ destruct Hs as [Hs1 Hs2]. split; [exact Hs1|]. rewrite <- app_assoc. cbn [app].
-              apply Forall_app in Hs2 as [F1 F2]. apply Forall_app. split; [exact F1|].
-              inversion F2; subst. constructor; [exact H2|]. constructor; [reflexivity|constructor].
-        -- exists items. rewrite lenZ_app, lenZ_cons, lenZ_nil in Hl.
-           rewrite lenZ_app, lenZ_cons, lenZ_nil in Hi. replace (seqNr + 1 - (lenZ acc + (1 + 0))) with (seqNr - lenZ acc) in Hi by lia.
-           split; [lia|]. split; [exact Hi|]. split; [exact Hdur|split; [exact Hsh|exact Hr0']].
+    assert (Fin : forall items, lenZ items = lenZ (acc ++ [sd]) + Z.of_nat n ->
+              items_at b (seqNr + 1 - lenZ (acc ++ [sd])) items ->
+              lenZ items = lenZ acc + Z.of_nat (S n) /\ items_at b (seqNr - lenZ acc) items).
+    { intros items Hl Hi. rewrite lenZ_app, lenZ_cons, lenZ_nil in Hl, Hi.
+      replace (seqNr + 1 - (lenZ acc + (1 + 0))) with (seqNr - lenZ acc) in Hi by lia. split; [lia|exact Hi]. }
+    destruct cur as [[[t d] r]|]; cbn [tl_state] in St.
+    + destruct St as (Hacc & Hr & St). cbn [snd] in Hr.
+      destruct ((i_dur sd =? d) && (i_dts sd =? nextT)) eqn:Ec.
+      * (* same duration, starts at the running end: r++ *)
+        apply andb_true_iff in Ec as [Ed Et]. apply Z.eqb_eq in Ed, Et.
+        destruct (IH (seqNr + 1) (Some (t, d, r + 1)) (u64 (nextT + i_dur sd)) done (acc ++ [sd]) tl Hat') as (items & Hl & Hi & Hex); [|exact Hrun|].
+        -- cbn [tl_state snd]. split; [exact Hne|]. split; [lia|]. intros F. apply Forall_snoc_inv in F as [Fa (Hs1 & Hs2 & Hs3)].
+           destruct (St Fa) as (E & En & Hn).
+           rewrite expand_app, expand_one in E. rewrite tl_end_app in En. cbn [tl_end] in En.
+           rewrite expand_app, expand_one, tl_end_app. cbn [tl_end].
+           replace (Z.to_nat (r + 1 + 1)) with (S (Z.to_nat (r + 1))) by lia.
+           rewrite expand_s_snoc, app_assoc, E, map_app. cbn [map]. unfold td at 3.
+           rewrite u64_small by lia. split; [|split; [|lia]].
+           ++ do 3 f_equal; [|lia]. rewrite Z2Nat.id by lia. lia.
+           ++ lia.
+        -- destruct (Fin items Hl Hi) as [A B]. exists items. split; [exact A|split; [exact B|exact Hex]].
+      * (* new S element; @t when the segment does not start at the running end *)
+        destruct (IH (seqNr + 1) (Some ((if i_dts sd =? nextT then -1 else i_dts sd), i_dur sd, 0)) (u64 (i_dts sd + i_dur sd))
+                    (done ++ [(t, d, r)]) (acc ++ [sd]) tl Hat') as (items & Hl & Hi & Hex); [|exact Hrun|].
+        -- cbn [tl_state snd]. split; [exact Hne|]. split; [lia|]. intros F. apply Forall_snoc_inv in F as [Fa (Hs1 & Hs2 & Hs3)].
+           destruct (St Fa) as (E & En & Hn).
+           unfold selem in *.
+           rewrite expand_app, E, expand_one, (tl_end_app (done ++ [(t, d, r)])), !En, map_app. cbn [map tl_end].
+           change (Z.to_nat (0 + 1)) with 1%nat. cbn [expand_s]. unfold td at 2.
+           rewrite u64_small by lia.
+           assert (Et0 : (if (if i_dts sd =? nextT then -1 else i_dts sd) =? -1 then nextT else (if i_dts sd =? nextT then -1 else i_dts sd)) = i_dts sd).
+           { destruct (i_dts sd =? nextT) eqn:Et; [apply Z.eqb_eq in Et; cbn; lia|].
+             replace (i_dts sd =? -1) with false by lia. reflexivity. }
+           rewrite Et0. split; [reflexivity|]. split; lia.
+        -- destruct (Fin items Hl Hi) as [A B]. exists items. split; [exact A|split; [exact B|exact Hex]].
     + (* first item *)
-      assert (acc = []) as -> by (destruct acc as [|a acc']; [reflexivity|]; destruct (Hcur ltac:(discriminate)) as (? & ? & ? & E & _); discriminate).
-      destruct (Hnil eq_refl) as [_ ->].
-      destruct (IH (seqNr + 1) (Some (i_dts sd, i_dur sd, 0)) [] ([] ++ [sd]) tl Hat'
-                  ltac:(discriminate)
-                  ltac:(intros _; exists (i_dts sd), (i_dur sd), 0; split; [reflexivity|lia])) as (items & Hl & Hi & Hdur & Hsh & Hr0'); [| | |exact Hrun|].
-      * unfold tl_out. cbn [app]. constructor; [cbn; lia|constructor].
-      * reflexivity.
-      * intros it rest E. cbn [app] in E. inversion E; subst. unfold tl_out, tl_shape. cbn. split; [reflexivity|constructor].
-      * exists items. cbn [app lenZ length] in *. change (lenZ (@nil item)) with 0 in *.
-        replace (seqNr + 1 - lenZ [sd]) with (seqNr - 0) in Hi by (cbn; lia).
-        split; [change (lenZ [sd]) with 1 in Hl; lia|]. split; [exact Hi|]. split; [exact Hdur|split; [exact Hsh|exact Hr0']].
+      destruct St as [-> ->].
+      destruct (IH (seqNr + 1) (Some (i_dts sd, i_dur sd, 0)) (u64 (i_dts sd + i_dur sd)) [] ([] ++ [sd]) tl Hat') as (items & Hl & Hi & Hex); [|exact Hrun|].
+      * cbn [tl_state snd app]. split; [discriminate|]. split; [lia|]. intros F. inversion F as [|? ? (Hs1 & Hs2 & Hs3) _]; subst.
+        rewrite expand_one. cbn [tl_end map]. change (Z.to_nat (0 + 1)) with 1%nat. cbn [expand_s].
+        replace (i_dts sd =? -1) with false by lia. rewrite u64_small by lia. unfold td. split; [reflexivity|]. split; lia.
+      * destruct (Fin items Hl Hi) as [A B]. exists items. split; [exact A|split; [exact B|exact Hex]].
 Qed.
 
 (** start times implied by a first start and the durations *)
@@ -1897,14 +1969,14 @@ Proof.
   rewrite (expand_cont tl _ H2 H3). fold (durs_of tl). f_equal. rewrite sumZ_repeat. lia.
 Qed.
 
-(** what one adaptation set's timeline says about the buffer of its first representation *)
+(** what one adaptation set's timeline says about the buffer of its first representation: one stored item per
+    number of the range, listed with its own start time and duration - also where a segment does not start at
+    the end of the previous one (since 4e0d5ea) *)
 Definition aset_sound (g : gen) (first last : Z) (reps : list Z) (tl : list selem) : Prop :=
   exists rep b items,
     hd_error reps = Some rep /\ lookup rep (g_bufs g) = Some b /\
     lenZ items = Z.of_nat (Z.to_nat (last - first + 1)) /\ items_at b first items /\
-    map snd (expand tl 0) = map i_dur items /\
-    (forall it rest, items = it :: rest -> 0 <= i_dts it ->
-       expand tl 0 = starts (i_dts it) (map i_dur items)).
+    (Forall item_timed items -> expand tl 0 = map td items).
 
 Lemma map_snd_starts t ds : map snd (starts t ds) = ds.
 Proof. revert t; induction ds as [|d r IH]; intros t; cbn; [reflexivity|]. f_equal. apply IH. Qed.
@@ -1918,39 +1990,20 @@ Proof.
   - cbn [timelines] in H. destruct reps as [|rep reps]; [discriminate|].
     destruct (lookup rep (g_bufs g)) as [b|] eqn:E; [|discriminate].
     destruct (lookup_Forall _ _ _ _ Fb E) as (k & Ib & _). cbn [snd] in Ib.
-    destruct (timeline_loop_ok b Ib (Z.to_nat (last - first + 1)) first None []) as (otl & Ht). rewrite Ht in H. cbn [bind] in H.
+    destruct (timeline_loop_ok b Ib (Z.to_nat (last - first + 1)) first None 0 []) as (otl & Ht). rewrite Ht in H. cbn [bind] in H.
     destruct otl as [tl|]; [|discriminate].
     destruct (timelines g first last rest) as [[tlr|]| |] eqn:Er; cbn [bind] in H; try discriminate.
     inversion H; subst tls. constructor; [|apply IH; reflexivity].
-    destruct (timeline_loop_sound b Ib (Z.to_nat (last - first + 1)) first None [] [] tl) as (items & Hlen & Hat & Hdur & Hsh & Hr0); try exact Ht.
+    destruct (timeline_loop_sound b Ib (Z.to_nat (last - first + 1)) first None 0 [] [] tl) as (items & Hlen & Hat & Hex); try exact Ht.
     + intros k0 it Hk. destruct k0; discriminate.
-    + auto.
-    + intros Hne; congruence.
-    + constructor.
-    + reflexivity.
-    + intros it rest0 E0; discriminate.
+    + cbn. auto.
     + change (lenZ (@nil item)) with 0 in *. rewrite Z.sub_0_r in Hat.
-      exists rep, b, items. split; [reflexivity|]. split; [exact E|]. split; [lia|]. split; [exact Hat|].
-      destruct items as [|it0 its].
-      * split; [|intros ? ? Hx; discriminate]. destruct tl as [|s tl']; [reflexivity|].
-        exfalso. cbn [map] in Hdur. unfold durs_of in Hdur. cbn [flat_map] in Hdur. inversion Hr0; subst.
-        replace (Z.to_nat (snd s + 1)) with (S (Z.to_nat (snd s))) in Hdur by lia. cbn in Hdur. discriminate.
-      * split.
-        -- destruct (Z.eq_dec (i_dts it0) (-1)) as [Em|Nm].
-           ++ (* a start time of -1 cannot occur for uint64 times; durations do not depend on it *)
-              specialize (Hsh it0 its eq_refl). destruct tl as [|[[t d] r] tl']; [cbn in Hdur; discriminate|].
-              destruct Hsh as [_ Hrest]. inversion Hr0; subst. cbn [snd] in *.
-              cbn [expand fst snd]. rewrite map_app, expand_s_starts, map_snd_starts.
-              rewrite (expand_cont tl' _ Hrest H3), map_snd_starts. exact Hdur.
-           ++ rewrite (expand_shape _ _ 0 Nm (Hsh it0 its eq_refl) Hr0), map_snd_starts. exact Hdur.
-        -- intros it rest0 Ei Hpos. inversion Ei; subst it rest0.
-           rewrite (expand_shape (i_dts it0) tl 0 ltac:(lia) (Hsh it0 its eq_refl) Hr0). rewrite Hdur. reflexivity.
+      exists rep, b, items. split; [reflexivity|]. split; [exact E|]. split; [lia|]. split; [exact Hat|exact Hex].
 Qed.
 
 (** generate: the published range consists of numbers whose counter is complete, and every adaptation
-    set's timeline describes stored items of its first representation, one per number, with their
-    durations, starting at the first item's time (and at every item's time when the items follow
-    each other without a gap in time) *)
+    set's timeline describes stored items of its first representation, one per number, each with its own
+    start time and duration *)
 Lemma gen_generate_sound g nl asets g' pub :
   gen_inv g -> gen_generate g nl asets = Ok (g', Some pub) ->
   (forall n, p_first pub <= n <= p_last pub -> exists c, In (n, c) (sc_live (g_cnt g)) /\ g_ntracks g <= c) /\
